@@ -29,7 +29,7 @@ func init() { commands["exec"] = cmdExec }
 // aspect behaviour of the n-th firing (same function as Corr/ExecCorr.v aspect_of)
 type aspBehaviour struct {
 	Burn uint64 `json:"burn"`
-	Kind int    `json:"kind"` // 0 ok, 1 out of gas, 2 "execution reverted", 3 generic failure
+	Kind int    `json:"kind"` // 0 ok, 1 out of gas, 2 "execution reverted", 3 generic failure, 4/5 failures whose text contains "out of gas"
 	Ret  string `json:"ret"`
 }
 
@@ -244,6 +244,10 @@ func runScenarioWith(cs *exCase, w *world, u progen.Universe, code0 []byte, debu
 			left, rerr = 0, errors.New("out of gas")
 		case 2:
 			rerr = errors.New("execution reverted")
+		case 4: // a failure whose text merely CONTAINS the words (a wrapped inner error): not the runtime's out-of-gas
+			rerr = errors.New("aspect: inner call failed: out of gas")
+		case 5:
+			rerr = errors.New("contract creation code storage out of gas")
 		default:
 			rerr = errors.New("aspect failed")
 		}
@@ -284,6 +288,13 @@ func runScenarioWith(cs *exCase, w *world, u progen.Universe, code0 []byte, debu
 			}
 		}
 		e.Digest = worldDigest(env.State, seenAddrs, r.touched)
+		if n := len(e.Stack); e.Op == 0xe6 && n >= 4 && e.Stack[n-2].IsUint64() && e.Stack[n-3].IsUint64() {
+			off, size := e.Stack[n-2].Uint64(), e.Stack[n-3].Uint64()
+			if off <= 31 && size <= 32 && off+size <= 32 {
+				w := env.State.GetState(e.Self, common.Hash(e.Stack[n-1].Bytes32()))
+				e.JVal, e.HasJVal = append([]byte{}, w[32-off-size:32-off]...), true
+			}
+		}
 		if self, ok := pendingCreate[e.Depth]; ok {
 			e.Digest2 = worldDigestX(env.State, seenAddrs, r.touched, &self)
 			delete(pendingCreate, e.Depth)
@@ -710,6 +721,8 @@ func genBindings(r *rng.R, u progen.Universe) ([]binding, []aspBehaviour) {
 			b.Kind = 2
 		case 2:
 			b.Kind = 3
+		case 3:
+			b.Kind = 4 + r.Intn(2)
 		}
 		as = append(as, b)
 	}
@@ -892,7 +905,7 @@ func genExecCaseOpts(rr *rng.R, u progen.Universe, forks []string, journal bool)
 	if focus == 2 {
 		// Aspects fail often, in every way, with gas left
 		for i := range cs.Aspects {
-			cs.Aspects[i].Kind = rr.Intn(4)
+			cs.Aspects[i].Kind = rr.Intn(6)
 			if rr.Bool() {
 				cs.Aspects[i].Burn = uint64(rr.Intn(2000))
 			}
